@@ -332,6 +332,19 @@ def normalize(expr: Any) -> Any:
 
         return None
 
+    # Concat(c, x) => (c << |x|) + ZeroExt(|c|, x), for a constant c and a 256-bit result
+    # note: simplify() folds `constant + small zero-extended value` into this form when the low bits
+    # of the constant are zero, which hides the `hash constant + offset` shape of storage slots
+    if (
+        expr.decl().name() == "concat"
+        and expr.num_args() == 2
+        and expr.size() == 256
+        and is_bv_value(expr.arg(0))
+        and not is_bv_value(expr.arg(1))
+    ):
+        hi, lo = expr.arg(0), expr.arg(1)
+        return con(hi.as_long() << lo.size()) + ZeroExt(hi.size(), lo)
+
     if expr.decl().name() == "concat" and expr.num_args() >= 2:
         new_args = []
 
